@@ -54,7 +54,7 @@ fn check_indices(
         for index in it: self.indexes.iter() 
         invariant forall|j: int| 0 <= j < it.index@ ==> self.indexes@[j] < params.m && lottery(params.phi_f, dense(&self.sigma, msg@, #[trigger] self.indexes@[j]), *stake, *total_stake),
     { let index = *index;
-            if index > params.m {
+            if index >= params.m {
                 return Err(SignatureError::IndexBoundFailed(index, params.m));
             }
 
